@@ -255,6 +255,81 @@ def expected_fields(t, exp):
     return e
 
 
+# ------------------------------------------------------------------ characters -> plane: coq/C19/Canvas.v against canvas.rs (section owner: ext-canvas)
+CANVAS_HEADER = 'From Coq Require Import List NArith Bool.\nFrom DV Require Import C19.Model C19.Canvas.\nImport ListNotations.\n'
+CANVAS_CELLS = {'VOut': 'CVOut', 'VAnn': 'CVAnn', 'HOut': 'CHOut', 'HAnn': 'CHAnn', 'Main': 'CMain', 'HCross': 'CHCross', 'VCross': 'CVCross'}
+
+
+def coq_points(s):
+    return '([%s]%%N)' % '; '.join(str(ord(c)) for c in s)
+
+
+def coq_outcome(r):
+    """the answer of `dv canvas` as a term of type Canvas.outcome"""
+    if 'panic' in r or 'crash' in r:
+        return 'Panic'
+    if 'err' in r:
+        return 'Err'
+    rows = []
+    for row in r['plane']:
+        cells = []
+        for c in row:
+            if isinstance(c, list):
+                cells.append('CRegion %d (%d, %d, %d, %d) %s' % (c[1], c[2][0], c[2][1], c[2][2], c[2][3], coq_points(c[3])))
+            else:
+                cells.append(CANVAS_CELLS[c])
+        rows.append('[' + '; '.join(cells) + ']')
+    name = 'None' if r.get('name') is None else '(Some %s)' % coq_points(r['name'])
+    return '(Ok (%s, [%s]))' % (name, '; '.join(rows))
+
+
+def canvas_outcome_text(m):
+    """model outcome (parsed term) -> the shape of a `dv canvas` answer"""
+    if not hasattr(m, 'name') or m.name != 'Ok':
+        return {'err' if getattr(m, 'name', '') == 'Err' else 'panic': True}
+    name, plane = m.args[0]
+    txt = lambda l: ''.join(chr(x) for x in l)
+    inv = {v: k for k, v in CANVAS_CELLS.items()}
+    return {'name': None if (hasattr(name, 'name') and name.name == 'None') else txt(name.args[0]),
+            'plane': [[['R', c.args[0], list(c.args[1]), txt(c.args[2])] if c.name == 'CRegion' else inv[c.name] for c in row] for row in plane]}
+
+
+def canvas_correspondence(ctx, drawings, noise):
+    """For every text: canvas_cplane text (Coq, vm_compute) = the outcome of scan + Canvas::plane (dv canvas): information item name,
+    every cell of the plane with region number, rectangle and text; Err on both sides for rejected text; never Panic."""
+    texts = [(t, 'drawing') for t in drawings] + [(t, 'noise') for t in noise]
+    impl = ctx.run_impl('canvas', [{'text': t} for t, _ in texts], shards=16)
+    same = ctx.run_model(CANVAS_HEADER, ['outcome_eqb (canvas_cplane %s) %s' % (coq_points(t), coq_outcome(r)) for (t, _), r in zip(texts, impl)],
+                         shard_size=ctx.pick(40, 400), tag='cv')
+    stats = {'drawing:ok': 0, 'noise:ok': 0, 'noise:err': 0, 'drawing:err': 0}
+    differ = []
+    for (t, kind), r, eq in zip(texts, impl, same):
+        ctx.evaluations += 1
+        ctx.corr_checked += 1
+        if 'panic' in r or 'crash' in r:
+            ctx.violation('text (%s) makes canvas.rs scan / plane panic: %s' % (kind, json.dumps(r)[:200]), {'text': t, 'meta': {'kind': kind, 'calls': []}}, impl=r)
+            continue
+        stats[kind + (':ok' if 'plane' in r else ':err')] += 1
+        if kind == 'drawing' and 'plane' not in r:
+            ctx.violation('scan / Canvas::plane rejects a well-formed drawing: %s' % r.get('err'), {'text': t, 'meta': {'kind': kind, 'calls': []}}, impl=r)
+        if eq is not True:
+            differ.append((t, kind, r))
+    if differ:
+        models = ctx.run_model(CANVAS_HEADER, ['canvas_cplane %s' % coq_points(t) for t, _, _ in differ[:5]], tag='cvd')
+        for (t, kind, r), m in zip(differ[:5], models):
+            mo = canvas_outcome_text(m)
+            where = 'outcome'
+            if 'plane' in r and 'plane' in mo:
+                where = 'information item name' if r.get('name') != mo['name'] else 'plane shape'
+                for y, (ra, rb) in enumerate(zip(r['plane'], mo['plane'])):
+                    for x, (a, b) in enumerate(zip(ra, rb)):
+                        if a != b and where == 'plane shape':
+                            where = 'cell row %d column %d: code %s, model %s' % (y, x, json.dumps(a, ensure_ascii=False), json.dumps(b, ensure_ascii=False))
+            ctx.corr_broken('canvas.rs vs coq/C19/Canvas.v (%s, %s)' % (kind, where), {'text': t},
+                            r if 'plane' not in r else {'name': r.get('name'), 'plane': 'see text'}, mo if 'plane' not in mo else {'name': mo['name']})
+    return stats, len(differ)
+
+
 def run(ctx):
     ctx.proof_gate()
     ctx.build_harness()
@@ -352,12 +427,16 @@ def run(ctx):
         if kind == 'panic':
             ctx.violation('text (%s) makes the recogniser / table builder panic instead of returning an error: %s' % (meta['kind'], json.dumps(r)[:300]),
                           {'text': txt, 'meta': meta}, impl=r)
+    # ---- characters -> plane: the Coq transliteration of canvas.rs on the same drawings and on noise texts
+    import time
+    cv_t0 = time.time()
+    cv_stats, cv_differ = canvas_correspondence(ctx, [c[3] for c in cases[:ctx.pick(300, 8000)]], [txt for _, txt in noisy[::max(1, len(noisy) // ctx.pick(400, 10000))]])
     return ctx.finish(
         rule='tables of the C03 fragment (1..5 inputs, 1..3 outputs, 0..2 annotations, 1..8 rules, all 11 hit-policy markers) drawn in both orientations with every '
              'combination of information item name / allowed values / output label / annotations, random cell widths, alignments, multi-line cells, merged input entries; '
              'every field compared with the drawing, evaluation compared with the XML equivalent on 4 tuples; then 8 single-character corruptions of each of 600 drawings, 2000 arbitrary texts '
              'and 4000 mangled drawings must give Ok or Err; non-trivial = distinct layout shapes',
-        extra_cov={'exhaustive': False, 'drawings': len(cases), 'distribution': hist, 'noise_outcomes': outcome},
+        extra_cov={'exhaustive': False, 'drawings': len(cases), 'distribution': hist, 'noise_outcomes': outcome, 'canvas_model': dict(cv_stats, differ=cv_differ, seconds=round(time.time() - cv_t0, 1))},
         assumptions=['cell texts contain no box-drawing characters', 'allowed values are drawn for all clauses or for none (the text format has one values line)',
                      'in a rules-as-columns table the first input expression is not a hit-policy marker and output names are not numbers (the recogniser would take them for the marker / rule numbers)'],
         trusted=['dv recognize (dmntk_recognizer::build, Recognizer::recognize, build_decision_table_evaluator)', 'props/c19draw.py (the drawing conventions follow /repo/examples)'])
